@@ -53,6 +53,21 @@ class Check(PropertyCheck):
                                          "flt dom ; " + " ".join(map(str, sub)), "flt nio ; " + " ".join(map(str, sub))]))
             lines += ["q current_time", "q completed"]
         lines += ["q is_complete", "q makespan"]
+        if rng.random() < 0.35:
+            # a second episode on the same dispatcher: time starts again at the beginning and moves forward again
+            lines += ["reset", "mark episode"]
+            if rng.random() < 0.4:
+                lines += ["q current_time", "q completed"]
+            tr.reset()
+            first = True
+            while not tr.done():
+                j, p, m = gen.gen_valid_request(rng, tr, rng.choice(["uniform", "last_job_first"]))
+                tr.take(j)
+                lines.append(f"disp {j} {p} {m}")
+                if not first or rng.random() < 0.5:
+                    lines += ["q current_time", "q completed"]
+                first = False
+            lines += ["q is_complete", "q makespan"]
         meta = {"family": family, "filter": "none" if f is None else "+".join(f) or "empty-composite",
                 "flexible": gen.is_flexible(jobs), "zero_dur": gen.has_zero(jobs), "accepted": n_acc,
                 "filter_style": rng.choice(["callable", "enum", "str", "lazy"])}
@@ -65,6 +80,9 @@ class Check(PropertyCheck):
     def oracle(self, impl, scenario, index, line, out, ctx):
         res = []
         d = impl.dispatcher
+        if line == "mark episode":
+            ctx.pop("t", None)
+            ctx.pop("completed", None)
         if line == "q current_time":
             t = int(out)
             prev = ctx.get("t")
